@@ -148,23 +148,23 @@ pub fn property_assumptions(property: &str) -> Vec<String> {
 /// Chosen so that every quick check is fixed work of roughly 20-60 s on 16 cores.
 pub fn quick_scale(property: &str) -> u32 {
     match property {
-        "C01" => 3,
+        "C01" => 8,
         "C02" => 6,
         "C03" => 10,
         "C04" => 3,
         "C05" => 10,
         "C06" => 6,
         "C07" => 5,
-        "C08" => 12,
+        "C08" => 100,
         "C09" => 2,
         "C10" => 5,
         "C11" => 4,
         "C12" => 4,
         "C13" => 8,
-        "C14" => 20,
-        "C15" => 15,
+        "C14" => 60,
+        "C15" => 100,
         "C16" => 6,
-        "C17" => 40,
+        "C17" => 200,
         "C18" => 2,
         _ => 1,
     }
